@@ -2,11 +2,11 @@ package props
 
 import (
 	"fmt"
-	"math"
-	"time"
 	"html/template"
+	"math"
 	"sort"
 	"strings"
+	"time"
 
 	"verifmc/engine"
 
@@ -70,12 +70,14 @@ var c04Pool = []kval{
 	{"k_sidn", func() interface{} { return WithAnyID{nil} }},
 	{"k_sidf", func() interface{} { return WithAnyID{func() {}} }},
 	{"k_slst", func() interface{} { return []interface{}{WithSliceID{nil}, "x", nil} }},
-	{"k_sstr", func() interface{} { return []fmt.Stringer{fixedTime} }},       // slice of a non-empty interface type
-	{"k_nptm", func() interface{} { var p *time.Time; return p }},             // typed nil *time.Time
-	{"k_nstr", func() interface{} { var p *ValStringer; return p }},           // typed nil pointer whose type has a value-receiver String
-	{"k_emb", func() interface{} { return WithNilEmbedded{} }},                // field promoted through a nil embedded pointer
+	{"k_sstr", func() interface{} { return []fmt.Stringer{fixedTime} }},      // slice of a non-empty interface type
+	{"k_nptm", func() interface{} { var p *time.Time; return p }},            // typed nil *time.Time
+	{"k_nstr", func() interface{} { var p *ValStringer; return p }},          // typed nil pointer whose type has a value-receiver String
+	{"k_emb", func() interface{} { return WithNilEmbedded{} }},               // field promoted through a nil embedded pointer
 	{"k_mnan", func() interface{} { return map[float64]int{math.NaN(): 1} }}, // NaN key
-	{"k_nhtm", func() interface{} { var p *htmler; return p }},                // typed nil pointer implementing HTMLer by value
+	{"k_nhtm", func() interface{} { var p *htmler; return p }},               // typed nil pointer implementing HTMLer by value
+	{"k_nids", func() interface{} { var p *IDList; return p }},               // typed nil pointer to a named slice type with a value-receiver method
+	{"k_ids", func() interface{} { return &IDList{1, 2} }},
 }
 
 // expression-produced kinds (cannot be injected as data)
@@ -158,7 +160,7 @@ func init() {
 			return s
 		},
 		Run:  c04Run,
-		Rule: "matrices over a pool of 54 injected value kinds (nil, bools, every int/uint/float width, strings, HTML, slices/arrays/pointers to them, maps of 5 key/value typings, nil map/slice/pointer/func, struct, funcs incl. variadic, iterator, chan, time, error) plus 11 expression-produced kinds (user function object, its call, slice+x, array/hash literal, literals, unknown identifier): (operator x L x R), !L / if(L) / emission / silent statement, L[I] (+ .Field/.Method tails), L[I]=V (all triples), member and method access incl. nil receivers, for over L, L(args<=3), user functions with p params x a args (0..4), and every built-in helper taken from plush.Helpers at run time x argument lists of length <=2 (+block, +options map). Oracle: (out,nil) or (\"\",err); no panic, no step-budget exhaustion, no worker crash. All cases are non-trivial (each is a distinct kind combination).",
+		Rule: "matrices over a pool of 56 injected value kinds (nil, bools, every int/uint/float width, strings, HTML, slices/arrays/pointers to them, maps of 5 key/value typings, nil map/slice/pointer/func, struct, funcs incl. variadic, iterator, chan, time, error) plus 11 expression-produced kinds (user function object, its call, slice+x, array/hash literal, literals, unknown identifier): (operator x L x R), !L / if(L) / emission / silent statement, L[I] (+ .Field/.Method tails), L[I]=V (all triples), member and method access incl. nil receivers, for over L, L(args<=3), user functions with p params x a args (0..4), and every built-in helper taken from plush.Helpers at run time x argument lists of length <=2 (+block, +options map). Oracle: (out,nil) or (\"\",err); no panic, no step-budget exhaustion, no worker crash. All cases are non-trivial (each is a distinct kind combination).",
 		Bound: func(th bool) string {
 			if th {
 				return "all matrices complete; plus one level of nesting (L op R) op' X for every operator pair over the pool"
@@ -226,7 +228,7 @@ func c04Run(t *engine.T, shard string) {
 		}
 	case "member":
 		members := []string{"X", "Name", "Kid", "NilKid", "Kids", "hidden", "Missing", "Hello", "PtrHello", "Kid.Name", "NilKid.Name", "Kid.Kid.Name", "Kids.Name", "Attrs.k"}
-		calls := []string{"Hello()", "PtrHello()", "Add(1)", "Add()", "Add(k_s)", "Add(1, 2)", "Missing()", "hidden()", "Name()", "Self().Name", "Self().Hello()", "Fail()", "GetKids()[0].Name", "Kid.Hello()", "NilKid.Hello()", "NilKid.PtrHello()", "Len()", "Next()", "Error()", "String()", "Unix()"}
+		calls := []string{"Hello()", "PtrHello()", "Add(1)", "Add()", "Add(k_s)", "Add(1, 2)", "Missing()", "hidden()", "Name()", "Self().Name", "Self().Hello()", "Fail()", "GetKids()[0].Name", "Kid.Hello()", "NilKid.Hello()", "NilKid.PtrHello()", "Len()", "Next()", "Error()", "String()", "Unix()", "Count()", "HTML()"}
 		for _, l := range c04Pool {
 			for _, m := range members {
 				c04Case(t, "member", P+`<%= `+l.name+`.`+m+` %>`)
@@ -282,6 +284,8 @@ func c04Run(t *engine.T, shard string) {
 		c04Case(t, "helper0", `<%= `+h+`() %>`)
 		c04Case(t, "helper0-blk", `<%= `+h+`() { %>B<%= k_s %><% } %>`)
 		c04Case(t, "helper-silent", `<% `+h+`("c") { %>B<% } %><%= contentOf("c") %>`)
+		c04Case(t, "helper-noblock-then-contentOf", `<% `+h+`("c") %><%= contentOf("c") %>|<%= contentOf("c", {"a": 1}) { %>D<% } %>`)
+		c04Case(t, "helper-noblock-then-partial", `<% `+h+`("p") %><%= partial("p") %>`)
 		for _, a := range append(append([]string{}, atoms...), `"p"`, `"missing"`) {
 			c04Case(t, "helper1", P+`<%= `+h+`(`+a+`) %>`)
 			c04Case(t, "helper1-blk", P+`<%= `+h+`(`+a+`) { %>B<% } %>`)
